@@ -35,6 +35,88 @@ for n, tier, cost in ((3, "quick", 40), (4, "thorough", 150)):
       "any WF arena of N=%d slots; query any prefix; %s; unwind %d" % (n, P8, n + 2),
       ["PrefixMap::get", "PrefixMap::contains_key", "PrefixMap::get_key_value"] + DESCENT, cost=cost)
 
+def obs(name, body, props, fns, sizes):
+    for n, tier, cost in sizes:
+        h("%s_n%d" % (name, n), n + 2, "obs::%s::<_, %d>" % (body, n), props + ["C20"], tier,
+          "any WF arena of N=%d slots (symbolic topology, value-less nodes anywhere); query any prefix; %s; unwind %d" % (n, P8, n + 2), fns + DESCENT, cost=cost)
+
+
+obs("obs_get_mut", "get_mut", ["C01", "C13", "C14", "C04"], ["PrefixMap::get_mut"], ((3, "quick", 40), (4, "thorough", 150)))
+obs("obs_lpm", "lpm", ["C02", "C18"], ["PrefixMap::get_lpm", "PrefixMap::get_lpm_prefix", "Node::prefix_value"], ((3, "quick", 60), (4, "thorough", 200)))
+obs("obs_lpm_mut", "lpm_mut", ["C02", "C13", "C14"], ["PrefixMap::get_lpm_mut", "Node::prefix_value_mut"], ((3, "quick", 60), (4, "thorough", 200)))
+obs("obs_spm", "spm", ["C09", "C18"], ["PrefixMap::get_spm", "PrefixMap::get_spm_prefix"], ((3, "quick", 60), (4, "thorough", 200)))
+obs("obs_cover", "cover", ["C09", "C02", "C18"], ["PrefixMap::cover", "Cover::next"], ((3, "quick", 120), (4, "thorough", 400)))
+obs("obs_cover_proj", "cover_proj", ["C09"], ["PrefixMap::cover_keys", "PrefixMap::cover_values", "CoverKeys::next", "CoverValues::next"], ((2, "quick", 60),))
+obs("obs_set", "set_obs", ["C01", "C02", "C09", "C18", "C04"], ["PrefixSet::{contains,get,get_lpm,get_spm,cover,len,is_empty}"], ((3, "quick", 120),))
+
+# ------------------------------------------------------------------ single-map iterators
+ITER_KINDS = [("iter", ["C03", "C18", "C04"], ["PrefixMap::iter", "Iter::next"]),
+              ("iter_mut", ["C03", "C13", "C14"], ["PrefixMap::iter_mut", "IterMut::next", "Table::get_mut"]),
+              ("into_iter", ["C03"], ["PrefixMap::into_iter", "IntoIter::next", "Table::into_inner"]),
+              ("keys_values_clone", ["C03"], ["<&PrefixMap>::into_iter", "PrefixMap::keys", "PrefixMap::values", "Keys::next", "Values::next", "Iter::clone"])]
+for kind, (nm, props, fns) in enumerate(ITER_KINDS):
+    for n, tier, cost in ((3, "quick", 300), (4, "thorough", 1200)):
+        if kind == 3 and n == 4:
+            continue
+        h("whole_%s_n%d" % (nm, n), n + 3, "iters::whole::<_, %d, %d>" % (kind, n), props + ["C20"], tier,
+          "any WF arena of N=%d slots; full traversal through the real constructor (stack re-homed into reserved capacity), probe prefix; %s; unwind %d" % (n, P8, n + 3), fns, cost=cost,
+          stub="growmodel" if kind == 3 else "nogrow")
+CH_KINDS = [("children", ["C10", "C18"], ["PrefixMap::children", "lpm_children_iter_start", "Iter::next"]),
+            ("children_mut", ["C10", "C13"], ["PrefixMap::children_mut", "lpm_children_iter_start", "IterMut::next"]),
+            ("into_children", ["C10"], ["PrefixMap::into_children", "lpm_children_iter_start", "IntoIter::next"])]
+for kind, (nm, props, fns) in enumerate(CH_KINDS):
+    for n, tier, cost in ((3, "quick", 300), (4, "thorough", 1200)):
+        h("%s_n%d" % (nm, n), n + 3, "iters::children::<_, %d, %d>" % (kind, n), props + ["C20"], tier,
+          "any WF arena of N=%d slots; any selector prefix (stored, branching, on an edge, absent, zero-length, host bits); full traversal; %s; unwind %d" % (n, P8, n + 3), fns, cost=cost)
+for kind, nm in enumerate(("iter", "iter_mut")):
+    for n, k, tier, cost in ((3, 2, "quick", 200), (4, 2, "thorough", 800)):
+        h("step_%s_n%d" % (nm, n), n + 2, "iters::step::<_, %d, %d, %d, %d>" % (kind, n, k, k + 1), ["C03", "C14", "C13", "C20"], tier,
+          "any WF arena of N=%d slots and any injected stack of <= %d entries satisfying StackInv; one next(); probe slot; unwind %d" % (n, k, n + 2),
+          ["Iter::next" if kind == 0 else "IterMut::next"], cost=cost)
+
+# ------------------------------------------------------------------ set operations (Init + Step)
+FAMS = [("union", 0, "C05", ["TrieView::union", "Union::next", "union::{next_indices,next_indices_first_l,next_indices_first_r,extend_lpm}"],
+         ["TrieViewMut::union_mut", "UnionMut::next", "union::next_indices*"]),
+        ("inter", 1, "C06", ["TrieView::intersection", "Intersection::next", "intersection::{next_indices,next_indices_first_a,next_indices_first_b}"],
+         ["TrieViewMut::intersection_mut", "IntersectionMut::next", "intersection::next_indices*"]),
+        ("diff", 2, "C07", ["TrieView::difference", "Difference::next", "difference::{next_indices,next_indices_first_a,next_indices_first_b,extend_lpm}"],
+         ["TrieViewMut::difference_mut", "DifferenceMut::next", "difference::next_indices*"]),
+        ("covdiff", 3, "C07", ["TrieView::covering_difference", "CoveringDifference::next", "difference::next_indices*"],
+         ["TrieViewMut::covering_difference_mut", "CoveringDifferenceMut::next", "difference::next_indices*"])]
+for fam, code, cprop, fro, fmu in FAMS:
+    for mut in (False, True):
+        m = "mut" if mut else "ro"
+        props = [cprop, "C18", "C20"] + (["C13", "C14"] if mut else []) + (["C08"] if fam in ("union", "diff") else [])
+        for n, k, tier, cost in ((2, 1, "quick", 200), (3, 2, "thorough", 1500)):
+            h("%s_init_%s_n%d" % (fam, m, n), n + 3, "setops::run::<_, %d, %s, true, %d, 1, 3>" % (code, str(mut).lower(), n), props, tier,
+              "two WF arenas of N=%d slots each, any pair of view locations (node or virtual, any roots); the real constructor; stack read back; entry probes; %s; unwind %d" % (n, P8, n + 3),
+              (fmu if mut else fro)[:1] + (fmu if mut else fro)[2:], cost=cost // 2, stub="growmodel")
+            h("%s_step_%s_n%d" % (fam, m, n), n + 3, "setops::run::<_, %d, %s, false, %d, %d, %d>" % (code, str(mut).lower(), n, k, k + 3), props, tier,
+              "two WF arenas of N=%d slots each, any pair of view locations, any injected stack of <= %d entries satisfying StackInv; one next(); stack read back; entry probes; %s; unwind %d" % (n, k, P8, n + 3),
+              (fmu if mut else fro)[1:], cost=cost, stub="growmodel")
+
+# ------------------------------------------------------------------ views
+VIEW_LOC = "any view location: Node(i) for reachable i or Virtual(p,i) with p strictly covering node i"
+for mut in (False, True):
+    m = "mut" if mut else "ro"
+    fn = "AsViewMut::view_mut_at" if mut else "AsView::view_at"
+    for n, tier, cost in ((3, "quick", 80), (4, "thorough", 300)):
+        h("view_at_%s_n%d" % (m, n), n + 2, "views::view_at::<_, %s, %d>" % (str(mut).lower(), n), ["C11", "C18", "C20"], tier,
+          "any WF arena of N=%d slots; any query; region probe; %s; unwind %d" % (n, P8, n + 2),
+          [fn, ("TrieViewMut" if mut else "TrieView") + "::{find,prefix,value}", "Table::get_direction_for_insert"], cost=cost)
+        h("view_nav_%s_n%d" % (m, n), n + 2, "views::nav::<_, %s, %d>" % (str(mut).lower(), n), ["C11", "C14", "C20"], tier,
+          "any WF arena of N=%d slots; %s; entry probe; unwind %d" % (n, VIEW_LOC, n + 2),
+          [("TrieViewMut" if mut else "TrieView") + "::{left,right" + (",split,has_left,has_right}" if mut else "}")], cost=cost)
+    for op, nm in enumerate(("find", "find_exact", "find_lpm", "view_at on a view")):
+        for n, tier, cost in ((3, "quick", 100), (4, "thorough", 400)):
+            h("view_find%d_%s_n%d" % (op, m, n), n + 2, "views::find::<_, %s, %d, %d>" % (str(mut).lower(), op, n), ["C12", "C14", "C20"] + (["C11"] if op in (0, 3) else []), tier,
+              "any WF arena of N=%d slots; %s; any query (inside, covering, disjoint); entry probe; unwind %d" % (n, VIEW_LOC, n + 2),
+              [("TrieViewMut::" if mut else "TrieView::") + nm, "Table::get_direction", "Table::get_direction_for_insert"], cost=cost)
+for op, nm in enumerate(("value_mut", "prefix_value_mut", "set", "remove")):
+    h("view_access%d_n3" % op, 5, "views::access::<_, %d, 3>" % op, ["C13", "C14", "C04", "C11", "C15", "C18", "C20"], "quick",
+      "any WF arena of N=3 slots; %s; TrieViewMut::%s then arena read-back; unwind 5" % (VIEW_LOC, nm),
+      ["TrieViewMut::{value,prefix,prefix_value,node_mut," + nm + "}", "Table::get_mut"], cost=60)
+
 # ------------------------------------------------------------------ mutator steps, one instance per assertion group
 def step(op, n, f, tier, cost, extra_props=(), groups=("ret", "len", "shape", "slots")):
     for g in groups:
